@@ -109,6 +109,35 @@ class InjectedFault(RuntimeError):
     """Raised by the wrappers that inject a fault into a pool worker / the writer."""
 
 
+class buffersize:
+    """Catalog.from_* hard-code buffersize=-1 when they call write_patches; substitute
+    another value so that the PatchWriter buffer logic (flush when the shards hold
+    >= buffersize records, flush at close) is exercised."""
+
+    def __init__(self, yaw, value) -> None:
+        import yaw.catalog.catalog as cc
+
+        self.cc, self.value = cc, value
+
+    def __enter__(self):
+        if self.value is None:
+            return self
+        self.orig = orig = self.cc.write_patches
+        value = self.value
+
+        def write_patches(*a, **kw):
+            kw["buffersize"] = value
+            return orig(*a, **kw)
+
+        self.cc.write_patches = write_patches
+        return self
+
+    def __exit__(self, *a):
+        if self.value is not None:
+            self.cc.write_patches = self.orig
+        return None
+
+
 class inject:
     """Make split_into_patches (where="worker") or CatalogWriter.process_patches
     (where="writer") raise when it meets the record with weight ``marker``.  The
@@ -151,7 +180,7 @@ class inject:
 
 
 def run_creation(yaw, root: Path, *, L, CS, W, pre="absent", overwrite=False, fault=None, fault_chunk=0,
-                 empty_centre=False, mode="apply", chooser=None, seed=0, where="reader", kill=None):
+                 empty_centre=False, mode="apply", chooser=None, seed=0, where="reader", kill=None, buf=0):
     """Run Catalog.from_dataframe for the scenario on the deterministic
     runtime.  Returns a dict with the projection onto the spec's terminal state
     and everything the oracles need."""
@@ -179,7 +208,7 @@ def run_creation(yaw, root: Path, *, L, CS, W, pre="absent", overwrite=False, fa
         killer = detrt.kill_process_when(lambda t: t.label == ("start",))
     elif kill is not None:    # ("get", j): while it waits for / is about to take item j+1 off the queue
         killer = detrt.kill_process_when(lambda t, j=kill[1]: t.label[:1] == ("get",) and t.seq == 1 + j)
-    with inject(yaw, where if fault_chunk else "reader", (fault_row or 0) + 1):
+    with inject(yaw, where if fault_chunk else "reader", (fault_row or 0) + 1), buffersize(yaw, None if not buf else buf):
         sched, outcome = detrt.run_main(main, chooser=chooser, seed=seed, describe=describe_item, before_step=killer)
     after = snapshot(path)
     res = dict(path=path, before=before, after=after, kind=outcome[0], sched=sched, df=df,
